@@ -130,6 +130,28 @@ def record_context(prog, R):
     return (idxs[0] if idxs else None), restore
 
 
+def _result_sources_private(ctx, prog, R, sa, bparam):
+    """result['x0'] = bads.x0.copy() copies only when the run ends: if bads.x0 may alias the array the caller passed to the
+    constructor, an in-place change of that array between construction and the end of optimize() shows up in the result
+    (x0 no longer agrees with the problem that was run).  May-alias dataflow over the constructor, helper returns followed
+    element-wise."""
+    from ..flow import TagFlow
+    from .c20 import AliasPolicy
+
+    init = R.bads_init
+    seeds = {p: frozenset({f"A:{p}"}) for p in init.params if p != "self"}
+    fl = TagFlow(prog, init, AliasPolicy(seeds, prog, init), may=True)
+    st = fl.state_at_exit() or {}
+    read = sorted({n.attr for n in ast.walk(sa.node) if isinstance(n, ast.Attribute) and isinstance(n.value, ast.Name) and n.value.id == bparam})
+    # only data that is fixed at construction: attributes the constructor assigns from its array parameters
+    for a in read:
+        if a not in ("x0",):
+            continue
+        tags = sorted(t for t in st.get(f"self.{a}", frozenset()) if t.startswith("A:"))
+        stores = [s_ for m, t, v, s_, k in attr_stores(prog, R.bads, a) if m is init]
+        ctx.check(not tags, init, stores[0] if stores else init.node, f"self.{a} is a private copy at the end of the constructor", f"self.{a} may be a view of the caller's {', '.join(t[2:] for t in tags)}: the result's '{a}' reports whatever that array holds when the run ends, not the {a} of the problem that was run", construct=f"self.{a} aliases constructor argument")
+
+
 def _field_set_rule(ctx, prog, sa):
     """must-definition of ``self[<literal>]`` over the CFG of set_attributes, exceptional edges included (an exception edge
     carries the state from before the statement that raised)."""
@@ -360,6 +382,10 @@ def check(ctx):
     for key, lst in stores.items():
         if allowed is not None and key not in allowed:
             ctx.fail(sa, lst[0][1], f"result key '{key}' is not in OptimizeResult._keys: building the result raises", construct=f"result key {key}")
+    # ------------------------------------------------------------------ R7
+    ctx.rule("R7", "problem data the result reports (x0) is held as a private copy from construction on, not as a view of the caller's array", floor=1)
+    _result_sources_private(ctx, prog, R, sa, bparam)
+
     # ------------------------------------------------------------------ R6
     ctx.rule("R6", "the result has the same field set on every path: a field stored anywhere in set_attributes is stored on all paths to its return", floor=10)
     _field_set_rule(ctx, prog, sa)
